@@ -40,6 +40,9 @@ func EvalHandlers(c *core.Ctx, line string) *core.Case {
 	if len(f) >= 2 && f[0] == "ssdp.disp" {
 		return evalSsdpDisp(c, f)
 	}
+	if len(f) >= 2 && f[0] == "mdns.hist" {
+		return evalMdnsHist(c, line, f[1:])
+	}
 	if len(f) != 2 {
 		return nil
 	}
